@@ -95,13 +95,20 @@ TRUSTED = [
     "the Python reference semantics of the oracle (harness/props/c18.py: _pipe_flow) and its Lean counterpart pipeFlow, "
     "compared on every run operation",
     "JSON line protocol encoders (harness/props/c18.py, drivers/C18.lean)",
+    "the transcription of Split.__init__ (buffer-size rule, lena.core.alter_sequence on the members) and Split.run for "
+    "one sequence/source member (Model/C18Split.lean), of Cache._set_context / LenaSequence._set_context / SetContext "
+    "for flat pipelines (Model/C18Ctx.lean), of Cache.__repr__ and the error branch of drop_cache (Model/C18Spec.lean), "
+    "validated by the same correspondence check; the specification vocabulary of the theorems (Distinct, NoFilled, "
+    "ModeOk, endOf, eraseCaches, EvAfter, StoredBy) is evaluated by the driver on every run and compared with Python",
 ]
 ASSUMPTIONS = [
     "pickle round trip: pickle.load returns the dumped values in order and raises EOFError exactly at the end of the "
     "file (checked on every case for ints, (data, context) pairs, strings, lists, nested dicts, None and falsy values, "
     "protocols 0-5, methods pickle/cPickle)",
     "file names: distinct Cache elements of one pipeline use distinct files, and no cache file name is the temporary "
-    "name (<name>.tmp) of another cache (theorem hypothesis Distinct); os.replace is atomic",
+    "name (<name>.tmp) of another cache (theorem hypothesis Distinct); os.replace is atomic.  With the same file twice "
+    "in one pipeline the real code ends the first run with FileNotFoundError (the second os.replace finds no temporary "
+    "file) after having yielded the whole flow, and the file holds the flow seen by the upstream one: loud, not modelled",
     "name-level file system: a file object still held by a suspended generator cannot change what a file name denotes "
     "after a later run has re-created the file (true since dd601f1; before it the correspondence check and the oracle "
     "failed on exactly the histories 'leaked interrupted run, later run on the same cache, late finalisation')",
@@ -110,11 +117,20 @@ ASSUMPTIONS = [
     "active at the same time on one cache file are outside the property's histories and are neither modelled nor "
     "generated (there the later run's os.replace fails with FileNotFoundError after it has yielded its whole flow; no "
     "truncated cache is stored or served)",
-    "a Cache inside a Sequence branch of lena.core.Split is run once per buffer (documented in Split.run: 'this may be "
-    "very wrong if seq has internal state, e.g. contains a Cache'): each buffer is 'the flow' of that run; Split is not "
-    "modelled here (C03)",
-    "permissions (os.access false for an existing file, LenaEnvironmentError of drop_cache) and Python 2 branches are "
-    "not modelled",
+    "Split: modelled for one member that is a Sequence (or a bare Cache) after arbitrary outer elements, with the "
+    "buffer-size rule of 7235571 (a Sequence member with a Cache makes Split read the whole flow at once; the pinned "
+    "rule is kept in the model as effBufsize false and proved to truncate).  Split fills its buffer from its own input "
+    "before it runs a member: the input of the Split is consumed even when the member replays a cache (Split's "
+    "documented schedule, C03); an exception of the outer pipeline may therefore arrive before earlier values were "
+    "yielded - the oracle accepts a prefix there.  Members of type fill/compute, fill/request and several members "
+    "are C03's and not modelled here; a Split object keeps the hoisting decision it took when it was constructed",
+    "drop_cache() on a missing file raises FileNotFoundError although its docstring says 'pass otherwise': judged "
+    "outside 'recompute=True and drop_cache() restore the first-run behaviour' (the first-run behaviour is there "
+    "anyway); modelled as it is, not demanded by the oracle",
+    "an interrupted recomputation keeps the old complete cache (theorem interrupted_recompute_keeps_old_cache, "
+    "validated by the correspondence); the statement would also allow dropping it, so the oracle accepts both",
+    "permissions are modelled only as 'os.remove fails although something readable is at the name' (dropBlocked, "
+    "exercised with a directory at the cache name); Python 2 branches of Cache.__init__ are unreachable",
 ]
 RULE = ("quick and thorough: exhaustive families — A: one cache in 4 pipeline shapes x source length 0..4 (thorough 0..6) "
         "x every crash point of the first run (consumer stops after k=0..n, source raises at k=0..n, each map element "
@@ -125,8 +141,14 @@ RULE = ("quick and thorough: exhaustive families — A: one cache in 4 pipeline 
         "of either cache, drop of either cache, finalize) on M C0 M C1 M followed by a complete run; D: the 7 ways of "
         "calling (Source, Sequence.run, Cache.alter_sequence of a Sequence / of a Source, lena.core.alter_sequence, bare "
         "element through either) x every filling state x every nesting of a sub-Sequence. Value kinds (ints, pairs with "
-        "context, mixed, falsy/None) rotate over the cases. Plus 8000 (thorough 250000) seeded random histories: up to 6 "
+        "context, mixed, falsy/None) rotate over the cases. Plus 5000 (thorough 120000) seeded random histories: up to 6 "
         "operations, up to 3 caches and 3 map elements per pipeline, source length 0..6, pickle protocols 0-5. "
+        "S: a Cache in a member of Split - 6 (outer, branch) shapes x source length 0..3 (thorough 0..5) x bufsize "
+        "None/1/2/3 x every crash point, every nesting of sub-Sequences in the member, a bare Cache member filled or not; "
+        "X: cache names from the static context (two templates, two keys, two values, SetContext before/after/overridden, "
+        "inside and outside a Split), repr, drop_cache with a directory at the name; E: one pipeline object (the same "
+        "Source/Sequence/Cache/Split objects) run three times and after drop_cache. In the random histories 35% of the "
+        "later runs re-use the pipeline object of an earlier run, 20% of the runs go through a Split. "
         "Non-trivial: at least one run of the history yields a value.")
 
 MODES = ("source", "sequence", "hoist", "hoist_src", "meta", "bare_hoist", "bare_meta")
@@ -199,14 +221,14 @@ class _Src(object):
         i = 0
         for i, c in enumerate(self.vals):
             if i == self.raise_at:
-                self.log.append(["s!", i])
+                self.log.append("s!%d" % i)
                 raise SrcBoom()
-            self.log.append(["s", i])
+            self.log.append("s%d" % i)
             yield enc(c, self.vk)
         if self.raise_at == len(self.vals):
-            self.log.append(["s!", len(self.vals)])
+            self.log.append("s!%d" % len(self.vals))
             raise SrcBoom()
-        self.log.append(["s$"])
+        self.log.append("s$")
 
 
 class _Map(object):
@@ -222,9 +244,9 @@ class _Map(object):
         n = 0
         for val in flow:
             if n == self.raise_at:
-                self.log.append(["m!", self.j, n])
+                self.log.append("m!%d:%d" % (self.j, n))
                 raise ElBoom()
-            self.log.append(["m", self.j, n])
+            self.log.append("m%d:%d" % (self.j, n))
             n += 1
             c = dec(val, self.vk)
             yield enc(10 * c + self.a, self.vk) if type(c) is int else ("bad", val)
@@ -273,11 +295,8 @@ def _fs_obs(names, vk):
 
 
 def _bits(names):
-    b = []
-    for n in names:
-        b.append(os.path.exists(n))
-        b.append(os.path.exists(n + ".tmp"))
-    return b
+    """existence of the cache file and of the temporary file of every cache, as a string of 0/1"""
+    return "".join(("1" if os.path.exists(n) else "0") + ("1" if os.path.exists(n + ".tmp") else "0") for n in names)
 
 
 def _mk_els(specs, j0, names, vk, log, caches=None, tmpl=None, maps=None):
@@ -493,6 +512,16 @@ def run_impl(case):
 # ----------------------------------------------------------------------------------------
 # Python reference (specification level; independent of the Lean model)
 
+def _ev_src(ev):
+    """events are compact strings: s<i> (the source yields its i-th value), s!<i> (raises), s$ (ends),
+    m<j>:<i> (element j receives its i-th value), m!<j>:<i> (and raises)"""
+    return ev[0] == "s"
+
+
+def _ev_j(ev):
+    return int(ev.lstrip("m!").split(":")[0])
+
+
 def _src_flow(src):
     vals, r = list(src["vals"]), src["raise"]
     if r is not None and r <= len(vals):
@@ -594,7 +623,7 @@ def compare(case, res, replies):
                   "endof": end,
                   "stored": sorted([c, fl[0]] for c, fl in inputs.items()) if end == "exhausted" else [],
                   "replay": replay,
-                  "evafter": None if replay is None else all(ev[0] in ("m", "m!") and ev[1] > replay for ev in b["ev"])}
+                  "evafter": None if replay is None else all((not _ev_src(ev)) and _ev_j(ev) > replay for ev in b["ev"])}
             spec = dict(spec or {})
             spec["stored"] = sorted(spec.get("stored", []))
             if jdump(spec) != jdump(py):
@@ -627,11 +656,11 @@ def oracle(case, res):
             if replay is not None:
                 c = els[replay]["c"]
                 for ev in ob["ev"]:
-                    if ev[0] in ("s", "s!", "s$"):
+                    if _ev_src(ev):
                         return (f"upstream-pulled: {where}: cache {c} is filled, but the run pulled from the source "
                                 f"(events {ob['ev'][:6]})")
-                    if ev[1] < replay:
-                        return (f"upstream-ran: {where}: cache {c} (element {replay}) is filled, but element {ev[1]} "
+                    if _ev_j(ev) < replay:
+                        return (f"upstream-ran: {where}: cache {c} (element {replay}) is filled, but element {_ev_j(ev)} "
                                 f"upstream of it processed a value")
                 if ob["out"] != exp_out:
                     return (f"replay-differs: {where}: cache {c} holds {stored[c]}, expected the run to yield {exp_out}, "
@@ -659,12 +688,12 @@ def oracle(case, res):
             (o_vals, o_exc), o_inputs, o_replay = _pipe_flow(stored, op["src"], outer)
             (vals, exc), b_inputs, b_replay = _pipe_flow(stored, {"vals": o_vals, "raise": None}, branch)
             for ev in ob["ev"]:
-                if o_replay is not None and (ev[0] in ("s", "s!", "s$") or (ev[1] < o_replay)):
+                if o_replay is not None and (_ev_src(ev) or _ev_j(ev) < o_replay):
                     return (f"upstream-pulled: {where}: cache {outer[o_replay]['c']} is filled, but the run pulled "
                             f"from upstream of it (event {ev})")
-                if b_replay is not None and ev[0] in ("m", "m!") and m <= ev[1] < m + b_replay:
+                if b_replay is not None and not _ev_src(ev) and m <= _ev_j(ev) < m + b_replay:
                     return (f"upstream-ran: {where}: cache {branch[b_replay]['c']} (branch element {b_replay}) is "
-                            f"filled, but branch element {ev[1] - m} upstream of it processed a value")
+                            f"filled, but branch element {_ev_j(ev) - m} upstream of it processed a value")
             if ob["out"] != vals[:len(ob["out"])]:
                 return (f"flow-altered: {where}: the flow through the pipeline is {vals}, the run yielded {ob['out']} "
                         f"(end {ob['end']})")
@@ -757,7 +786,7 @@ def classify(case, res):
         if op["op"] == "run":
             labels.append("run-end:" + ob["end"] + ("+leak" if op.get("fin") == "leak" and ob["end"] != "exhausted" else ""))
             labels.append("run-mode:" + op.get("mode", "source"))
-            labels.append("run:" + ("no-source-event" if not any(e[0][0] == "s" for e in ob["ev"]) else "from-source"))
+            labels.append("run:" + ("no-source-event" if not any(_ev_src(e) for e in ob["ev"]) else "from-source"))
             labels.append("take:" + ("all" if op["take"] is None else "k"))
         elif op["op"] == "splitrun":
             labels.append("split-end:" + ob["end"])
@@ -1132,8 +1161,8 @@ def gen_cases(ctx):
     rng = ctx.rng
     quick = ctx.tier == "quick"
     ctx.exhaustive = False     # the enumerated families are complete; the random histories are sampled
-    n_random = 8000 if quick else 250000
-    per = 1 if quick else 6
+    n_random = 5000 if quick else 120000
+    per = 1 if quick else 4
     made = 0
     for i, c in enumerate(_enumerated(quick)):
         c["vk"] = _VKS[i % 4]
@@ -1214,7 +1243,10 @@ LEVEL_TEXT = ("Lean 4 theorems about a transcribed generator machine (Cache.run 
               "unaltered, a complete first run stores exactly the complete flow that entered the cache, a replay yields "
               "exactly the stored values with no event upstream of the cache, hoisting builds the same generators, "
               "recompute and drop_cache restore first-run behaviour, an interrupted run changes no cache file, and over "
-              "every history a cache file only ever holds the complete flow of a run that reached its normal end. The "
+              "every history a cache file only ever holds the complete flow of a run that reached its normal end; a Cache "
+              "in a Sequence member of Split is filled with the whole flow (Split = outer run + one ordinary run of the "
+              "member), a filled bare Cache member is replayed exactly; templated cache names depend only on preceding "
+              "SetContext elements and other names are never touched. The "
               "model is tied to /repo by a correspondence check on event traces and file-system snapshots over exhaustive "
               "small scopes plus seeded random histories, and a direct oracle evaluates the statement on the real code.")
 LEVEL_NOTE = ("Trusted: Lean kernel (+ propext, Classical.choice, Quot.sound), the hand transcription validated by the "
